@@ -330,8 +330,8 @@ func cmdCheck(args []string) int {
 		}
 		// the recorded witness must still reproduce on the real code, otherwise this is something else
 		if k.ReplayTest != "" {
-			ok, out := runReplayTest(k.ReplayPkg, filepath.Join(verifDir(), k.ReplayTest), k.ReplayRun)
-			if !ok {
+			_, out := runReplayTest(k.ReplayPkg, filepath.Join(verifDir(), k.ReplayTest), k.ReplayRun)
+			if !strings.Contains(out, "DEFECT-REPRODUCED") {
 				for _, f := range fs {
 					f.Reason += " (matches known finding " + k.ID + " but its recorded witness no longer reproduces: " + lastLines(out, 3) + ")"
 					rest = append(rest, f)
